@@ -13,7 +13,12 @@ import GqlProofs.Grammar.Complete
   driver ops `gq` / `gqc` run) and the unparser `Print.printQuery` (op `unparseq`).
   Then (section "the parser is sound") the theorems about the PARSER MODEL
   (`GqlModel/Parser/Query.lean`, op `pq`): every accepted non-empty document is derivable and its
-  tree unparses to a canonical form of the input (`C05_parse_sound`, `C05_parse_sound_<nt>`).
+  tree unparses to a canonical form of the input (`C05_parse_sound`, `C05_parse_sound_<nt>`);
+  section "completeness": every lexable input whose token sequence is derivable is accepted, and
+  the unparse of the tree is the canonical output of EVERY derivation
+  (`C05_parse_complete_canonical`, `C05_parse_complete_<nt>`), hence `C05_accepts_exactly`,
+  `C05_canonical_unique`, `C05_parse_sound_canonical` (with the recogniser's `canonical`, which
+  is complete at its standard fuel: `C05_recognises_iff`) and `C05_accepts_iff_recognises`.
   The tie to the real parser is the check `C05` (harness/internal/props/grammarcheck.go): verdict and
   unparse equation against these definitions, input by input.
 -/
